@@ -96,6 +96,9 @@ def rule_accessors(ctx: Ctx, rule: str = "R-FRAME") -> None:
         for p in paths:
             if p.exit and p.exit[0] == "raise" and p.exit[1] == "AssertionError":
                 continue
+            if fact_where(p, lambda k: S(k) == "none:self.state.position") and not (p.exit and p.exit[0] == "raise"):
+                ctx.violate(rule, short, "position-none-accepted", f"{short}: continues on [{p.cond_text()[:80]}] although the object has no position (and rejects objects that have one)", fi=fi)
+                continue
             base = fact_where(p, lambda k: S(k) == "eq:self.frame_id==FrameID.BASE_LINK")
             tfn = fact_where(p, lambda k: k == "none:transforms")
             ctx.require(base is not None, f"{short}: no dispatch on self.frame_id == FrameID.BASE_LINK [{p.cond_text()[:80]}]")
@@ -116,6 +119,11 @@ def rule_accessors(ctx: Ctx, rule: str = "R-FRAME") -> None:
                 rows.add("tf")
                 P = f"transforms.transform({KEY},self.state.position)"
                 Q = f"transforms.transform({KEY},self.state.position,self.state.orientation)[1]"
+            if p.exit and p.exit[0] == "raise":
+                ctx.violate(rule, short, "ego:raises" if base else "transformed:raises",
+                            f"{short}: raises {p.exit[1]} on [{p.cond_text()[:80]}] - " + ("an ego-frame object needs no transforms and must return its raw value" if base else "with transforms given a non-ego object must be transformed, not rejected"),
+                            fi=fi, expected="return", found=f"raise {p.exit[1]}")
+                continue
             ctx.require(p.exit == ("return",) and p.retval is not None, f"{short}: path [{p.cond_text()[:60]}] does not return")
             if not heading:
                 want = shape.format(P=P)
@@ -232,6 +240,9 @@ def rule_heading_error(ctx: Ctx) -> None:
             ctx.check(p.retval is not None and S(p.retval) == "None", "C09-heading-error", "get_heading_error", "no-other", "without a counterpart the error must be None", fi=fi)
             continue
         rv = p.retval
+        if p.exit == ("return",) and (rv is None or S(rv) == "None"):
+            ctx.violate("C09-heading-error", "get_heading_error", "with-other:none", "with a counterpart given the heading error is None (it must be the three wrapped differences)", fi=fi)
+            continue
         ctx.require(isinstance(rv, ast.Tuple) and len(rv.elts) == 3, "get_heading_error: does not return a 3-tuple")
         for axis, idx, e in zip(("roll", "pitch", "yaw"), (2, 1, 0), rv.elts):
             want = f"_clip(other.state.orientation.yaw_pitch_roll[{idx}]-self.state.orientation.yaw_pitch_roll[{idx}])"
@@ -257,8 +268,13 @@ def rule_aph_weight(ctx: Ctx, rule: str = "C09-aph-weight") -> None:
         x = rv
         for _ in range(2):
             if isinstance(x, ast.Call) and S(x.func) in ("min", "max") and len(x.args) == 2:
-                rest = [a for a in x.args if S(a) not in ("0.0", "1.0", "0", "1")]
-                ctx.require(len(rest) == 1, "TPMetricsAph.get_value: clamp shape not recognised")
+                consts = [a for a in x.args if isinstance(a, ast.Constant) and isinstance(a.value, (int, float)) and not isinstance(a.value, bool)]
+                rest = [a for a in x.args if a not in consts]
+                ctx.require(len(rest) == 1 and len(consts) == 1, "TPMetricsAph.get_value: clamp shape not recognised")
+                bound = 1.0 if S(x.func) == "min" else 0.0
+                ctx.check(float(consts[0].value) == bound, rule, "TPMetricsAph.get_value", f"clamp:{S(x.func)}",
+                          f"the weight is clamped by {S(x.func)}({consts[0].value}, .); the clamp only absorbs rounding: it must be min(1.0, .) and max(0.0, .) (any other bound changes weights inside [0, 1])",
+                          fi=fi, expected=f"{S(x.func)}({bound}, .)", found=f"{S(x.func)}({consts[0].value}, .)")
                 x = rest[0]
         heads = [n for n in ast.walk(x) if isinstance(n, ast.Call) and isinstance(n.func, ast.Attribute) and n.func.attr == "get_heading_bev"]
         recvs = sorted({S(h.func.value) for h in heads})
@@ -302,9 +318,13 @@ def rule_aph_weight(ctx: Ctx, rule: str = "C09-aph-weight") -> None:
                   f"heading weight is `{S(x).replace(S(est), 'h_est').replace(S(gt), 'h_gt')[:120]}`; definition: 1 - d/pi with d = |h_est - h_gt| folded to [0, pi] by 2*pi - d",
                   fi=fi, expected=want, found=S(x).replace(S(est), "he").replace(S(gt), "hg")[:160], sample={"fold": bool(fold), "weight": want})
         # identity transform only because a difference of two headings under the same transform is taken
+        ego = fact_where(p, lambda k: S(k) == f"eq:{res}.estimated_object.frame_id==FrameID.BASE_LINK")
         for h in heads:
             for a in h.args:
                 t = S(a)
+                if ego is False:
+                    ctx.check(t != "None", rule, "TPMetricsAph.get_value", "non-ego:transforms-given",
+                              "for objects that are not in the ego frame the headings are requested without transforms: the accessor raises for every map-frame object", fi=fi)
                 if t not in ("None", "transforms") and "TransformDict(" in t:
                     ctx.check("np.eye(4)" in t and f"{res}.estimated_object.frame_id,FrameID.BASE_LINK" in t, rule, "TPMetricsAph.get_value", "identity-transform",
                               f"a locally built transform `{t[:100]}` is not the identity from the object's frame to BASE_LINK", fi=fi)
